@@ -426,9 +426,14 @@ class Gridder(GeospatialGrid):
                     variable[:dateline_crossing_idx],
                     np.array(
                         [
+                            # A zero-length crossing segment (a repeated point
+                            # written as +pi / -pi) has no length to apportion:
+                            # the two parts share its value equally.
                             variable[dateline_crossing_idx]
                             * first_segment_length
                             / total_segment_length
+                            if total_segment_length != 0
+                            else variable[dateline_crossing_idx] * 0.5
                         ]
                     ),
                 )
@@ -518,6 +523,8 @@ class Gridder(GeospatialGrid):
                             var[dateline_crossing_idx]
                             * second_segment_length
                             / total_segment_length
+                            if total_segment_length != 0
+                            else var[dateline_crossing_idx] * 0.5
                         ]
                     ),
                     var[dateline_crossing_idx + 1 :],
